@@ -696,6 +696,14 @@ class EvalFunc:
                     self.local_sym_table[var_name] = EvalLocalVar(var_name)
                 continue
 
+            if (
+                var_name not in nonlocal_names
+                and ast_ctx.curr_func
+                and var_name in ast_ctx.curr_func.global_names
+            ):
+                # declared global in the enclosing function: not a closure variable
+                continue
+
             if var_name in nonlocal_names:
                 sym_table_idx = 1
             else:
